@@ -45,7 +45,7 @@ fn main() {
         "C02" => {
             let (shards, per) = match args.tier {
                 Tier::Quick => (16, 6),
-                Tier::Thorough => (64, 60),
+                Tier::Thorough => (48, 20),
             };
             vcore::run_shards(&mut mon, shards, threads, |s, m| c02::run_shard(s, m, per));
             mon.finish(
@@ -57,7 +57,7 @@ fn main() {
         "C06" => {
             let (shards, per) = match args.tier {
                 Tier::Quick => (16, 6),
-                Tier::Thorough => (64, 40),
+                Tier::Thorough => (48, 20),
             };
             vcore::run_shards(&mut mon, shards, threads, |s, m| c06::run_stm_level(s, m, per));
             c06::run_common_level(&mut mon);
